@@ -3,8 +3,12 @@ package c20
 import (
 	"context"
 	"fmt"
+	"runtime"
+	"slices"
 	"sort"
 	"sync"
+	"strings"
+	"sync/atomic"
 	"testing"
 	"testing/synctest"
 	"time"
@@ -15,7 +19,8 @@ import (
 )
 
 const rule = "random schedules under virtual time (testing/synctest): 0..12 channels (pre-closed, closing at distinct integer milliseconds, or never), set built with Add (with duplicates) / Clear / Merge, " +
-	"settle time 0 or k+0.5 ms, cancellation at a distinct millisecond, up to 3 consecutive Wait calls on the same set; return time, returned set, error and Has() of every channel are compared with the model; " +
+	"settle time 0 or k+0.5 ms, cancellation at a distinct millisecond, up to 3 consecutive Wait calls on the same set; return time, returned set, error and Has() of every channel are compared with the model, "+
+	"and the slices returned by earlier calls are re-read after every later call; " +
 	"non-trivial = the set was non-empty at the call; distinct = hash of the schedule"
 
 type sched struct {
@@ -131,6 +136,7 @@ func runSchedule(r *vkit.Run, t *testing.T, idx int) {
 			}
 		}
 
+		var earlier, earlierCopy [][]<-chan struct{}
 		time.Sleep(100 * time.Microsecond)
 		for ci := range sc.Calls {
 			cd := &sc.Calls[ci]
@@ -191,6 +197,14 @@ func runSchedule(r *vkit.Run, t *testing.T, idx int) {
 			}
 			got, err := ws.Wait(ctx, settle)
 			ret := time.Since(t0)
+			// results of earlier calls belong to the caller: a later Wait on the same set must not change them
+			for pi, p := range earlier {
+				if !slices.Equal(p, earlierCopy[pi]) {
+					fail("earlier-result-changed", "the slice returned by call %d was changed by call %d on the same set", pi, ci)
+				}
+			}
+			earlier = append(earlier, got)
+			earlierCopy = append(earlierCopy, slices.Clone(got))
 			events = append(events, fmt.Sprintf("call %d: start=%.2fms settle=%.2fms cancelAt=%.2fms -> returned %d channels err=%v at %.2fms (model: at %.2fms err=%v set=%v oneOf=%v)",
 				ci, ms(start), ms(settle), ms(cancelAt), len(got), err, ms(ret), ms(wantRet), wantErr, wantSet, oneOf))
 			cancel()
@@ -289,5 +303,221 @@ func TestVerif_Schedules(t *testing.T) {
 			runSchedule(r, t, i)
 		}
 	}
+	r.Finish()
+}
+
+
+// ---- concurrent use of one WatchSet (race detector) ----
+
+const ruleConc = "real goroutines under the race detector: one WatchSet with 10-80 channels (at least one never closed), half added up front and half by an adder goroutine, " +
+	"closed in random order by two closer goroutines, 2-4 goroutines calling Wait (settle 0 / 200 us / 1 ms, 2 ms deadline per call) in a loop and reading their results, a goroutine calling Has/HasAny; " +
+	"oracle: across all Wait calls every channel is returned at most once, only added and closed channels are returned, no result contains a duplicate, an error is returned only when the call's context has ended and is that context's error, " +
+	"and after the run Has(ch) is true exactly for added channels that were not returned; every closed channel must have been returned before the run is cancelled (30 s watchdog: inconclusive); " +
+	"non-trivial = at least two different goroutines obtained results; distinct = hash of the parameters"
+
+func concurrentRun(r *vkit.Run, idx int) {
+	rng := r.Rand(idx)
+	n := 10 + rng.IntN(71)
+	never := 1 + rng.IntN(3)
+	waiters := 2 + rng.IntN(3)
+	settle := []time.Duration{0, 200 * time.Microsecond, time.Millisecond}[rng.IntN(3)]
+	chans := make([]chan struct{}, n)
+	ro := make([]<-chan struct{}, n)
+	index := map[<-chan struct{}]int{}
+	for i := range chans {
+		chans[i] = make(chan struct{})
+		ro[i] = chans[i]
+		index[ro[i]] = i
+	}
+	h := vkit.NewHash()
+	h.Str(fmt.Sprintf("%d/%d/%d/%v/%d", n, never, waiters, settle, idx))
+	ws := statedb.NewWatchSet()
+	// channels 0..never-1 are never closed and are added up front, so the set never becomes empty
+	// (Wait on an empty set blocks on the context with the mutex held)
+	half := never + (n-never)/2
+	ws.Add(ro[:half]...)
+	var (
+		mu       sync.Mutex
+		returned = make([]int, n)
+		byWaiter = make([]int, waiters)
+		nret     atomic.Int64
+		closedAt = make([]atomic.Bool, n)
+		problems []string
+	)
+	note := func(f string, a ...any) {
+		mu.Lock()
+		if len(problems) < 5 {
+			problems = append(problems, fmt.Sprintf(f, a...))
+		}
+		mu.Unlock()
+	}
+	ctx, cancel := context.WithCancel(context.Background())
+	var wg, bg sync.WaitGroup
+	for w := 0; w < waiters; w++ {
+		wg.Add(1)
+		go func(w int) {
+			defer wg.Done()
+			for {
+				// every call has its own 2 ms deadline: Wait holds the set's mutex while it blocks, so Add and Has get their turn
+				// only when a Wait returns
+				cctx, ccancel := context.WithTimeout(ctx, 2*time.Millisecond)
+				got, err := ws.Wait(cctx, settle)
+				if err != nil && cctx.Err() == nil {
+					note("key=error Wait returned %v although its context has not ended", err)
+				}
+				if err != nil && err != cctx.Err() {
+					note("key=error-value Wait returned %v, the context's error is %v", err, cctx.Err())
+				}
+				ccancel()
+				seen := map[<-chan struct{}]bool{}
+				for _, ch := range got {
+					i, ok := index[ch]
+					if !ok {
+						note("key=not-member Wait returned a channel that was never added")
+						continue
+					}
+					if seen[ch] {
+						note("key=duplicate one result holds channel %d twice", i)
+					}
+					seen[ch] = true
+					if !closedAt[i].Load() {
+						select {
+						case <-ch:
+						default:
+							note("key=not-closed Wait returned channel %d which is not closed", i)
+						}
+					}
+					mu.Lock()
+					returned[i]++
+					if returned[i] == 2 {
+						problems = append(problems, fmt.Sprintf("key=returned-twice channel %d was returned by two Wait calls although it was added once", i))
+					}
+					byWaiter[w]++
+					mu.Unlock()
+					nret.Add(1)
+				}
+				if ctx.Err() != nil {
+					return
+				}
+			}
+		}(w)
+	}
+	// adder
+	bg.Add(1)
+	var chunks []int
+	for i := half; i < n; {
+		k := min(n, i+1+rng.IntN(5))
+		chunks = append(chunks, k)
+		i = k
+	}
+	go func() {
+		defer bg.Done()
+		i := half
+		for _, k := range chunks {
+			ws.Add(ro[i:k]...)
+			i = k
+			runtime.Gosched()
+		}
+	}()
+	// closers
+	order := rng.Perm(n - never)
+	seeds := []uint64{rng.Uint64(), rng.Uint64()}
+	for c := 0; c < 2; c++ {
+		bg.Add(1)
+		go func(c int) {
+			defer bg.Done()
+			x := seeds[c]
+			for j := c; j < len(order); j += 2 {
+				i := never + order[j]
+				closedAt[i].Store(true)
+				close(chans[i])
+				x = x*6364136223846793005 + 1442695040888963407
+				switch x >> 62 {
+				case 0:
+					time.Sleep(time.Duration(x>>40%200) * time.Microsecond)
+				case 1:
+					runtime.Gosched()
+				}
+			}
+		}(c)
+	}
+	// prober
+	stopProbe := make(chan struct{})
+	var probes atomic.Int64
+	var pg sync.WaitGroup
+	pg.Add(1)
+	go func() {
+		defer pg.Done()
+		x := uint64(idx)*2654435761 + 1
+		for {
+			select {
+			case <-stopProbe:
+				return
+			default:
+			}
+			x = x*6364136223846793005 + 1442695040888963407
+			i := int(x >> 33 % uint64(n))
+			mu.Lock()
+			was := returned[i] > 0
+			mu.Unlock()
+			if ws.Has(ro[i]) && was {
+				note("key=membership Has(channel %d) is true after a Wait returned it", i)
+			}
+			if i < never && !ws.HasAny(ro[:never]) {
+				note("key=membership HasAny(never-closed channels) is false")
+			}
+			probes.Add(1)
+			time.Sleep(50 * time.Microsecond)
+		}
+	}()
+	bg.Wait()
+	want := int64(n - never)
+	deadline := time.Now().Add(30 * time.Second)
+	for nret.Load() < want && time.Now().Before(deadline) {
+		time.Sleep(200 * time.Microsecond)
+	}
+	complete := nret.Load() >= want
+	cancel()
+	wg.Wait()
+	close(stopProbe)
+	pg.Wait()
+	r.Count("concurrent_wait_results", nret.Load())
+	r.Count("has_probes", probes.Load())
+	active := 0
+	for _, b := range byWaiter {
+		if b > 0 {
+			active++
+		}
+	}
+	r.Max("waiters_with_results", int64(active))
+	if !complete {
+		// closed members that were never returned although waiters kept calling Wait: decided as a violation only if the
+		// waiters were live, which the 30 s wall-clock bound cannot tell apart from a starved machine
+		r.Inconclusive(fmt.Sprintf("concurrent run %d: %d of %d closed channels returned within 30 s", idx, nret.Load(), want))
+	} else {
+		for i := range ro {
+			mu.Lock()
+			ret := returned[i] > 0
+			mu.Unlock()
+			if ws.Has(ro[i]) == ret {
+				note("key=membership after the run Has(channel %d)=%v, returned=%v", i, ws.Has(ro[i]), ret)
+			}
+		}
+	}
+	r.Case(h.Sum(), active >= 2)
+	for _, p := range problems {
+		key := "concurrent/other"
+		if strings.HasPrefix(p, "key=") {
+			f := strings.SplitN(p[4:], " ", 2)
+			key, p = "concurrent/"+f[0], f[1]
+		}
+		r.Violation(key, idx, map[string]any{"message": p, "channels": n, "never_closed": never, "waiters": waiters, "settle": settle.String()})
+	}
+}
+
+func TestVerifRace_ConcurrentWaits(t *testing.T) {
+	r := vkit.Start(t, "C20", "concurrent-waits", "exploration", ruleConc)
+	r.Require("concurrent_wait_results")
+	r.ParallelCases(vkit.N(200, 5000), 4, func(i int) { concurrentRun(r, i) })
 	r.Finish()
 }
